@@ -86,6 +86,25 @@ def run(seed, n):
         names = call['names']
         call['l_out'] = out_attrs(rng, call['L'].columns, names[0], names[1])
         call['r_out'] = out_attrs(rng, call['R'].columns, names[2], names[3])
+        if kind == 'join' and rng.random() < 0.2 and len(call['L']) > 0:
+            # self-join: the SAME DataFrame object on both sides, out attrs = the same columns in another order
+            Lx = call['L']
+            extra = [c for c in Lx.columns if c not in (names[0], names[1])]
+            while len(extra) < 2:
+                cn = 'e%d' % len(extra)
+                Lx = Lx.copy()
+                Lx[cn] = [rng.randint(0, 9) for _ in range(len(Lx))]
+                extra.append(cn)
+            call['L'] = call['R'] = Lx
+            call['names'] = names = (names[0], names[1], names[0], names[1])
+            lo = rng.sample(extra, rng.randint(2, len(extra)))
+            ro = list(lo)
+            while ro == lo:
+                rng.shuffle(ro)
+            if rng.random() < 0.3:
+                lo = lo + [names[1]]
+            call['l_out'], call['r_out'] = lo, ro
+            call['self_join'] = True
         call['prefixes'] = rng.choice([('l_', 'r_'), ('l_', 'r_'), ('ltable.', 'rtable.'), ('', 'R')])
         if call['prefixes'] == ('', 'R') and (call['l_out'] or call['r_out']):
             call['prefixes'] = ('L', 'R')     # keep output column names distinct
@@ -209,7 +228,7 @@ def run_groups_with_prelude(tag, groups, pre, shard=40):
 
 def describe(call):
     d = {k: call.get(k) for k in ('measure', 'which', 'kind', 'op', 'allow_empty', 'allow_missing', 'with_score',
-                                  'njobs', 'l_out', 'r_out', 'prefixes')}
+                                  'njobs', 'l_out', 'r_out', 'prefixes', 'self_join')}
     t = call['t']
     d['threshold'] = t.hex() if isinstance(t, float) else t
     d['names'] = list(call['names'])
